@@ -54,8 +54,8 @@ class IncSolver(object):
         while line.count('(') > line.count(')'):
             line += ' ' + s.p.stdout.readline().strip()
         if line.startswith('(error'): return
-        names = set(re.findall(r'\|[^|]*\||n\d+', line))
-        ids = [l.id for l in lits if smt_name(l) in names]
+        names = set(x.strip('|') for x in line.strip().strip('()').split())
+        ids = [l.id for l in lits if smt_name(l).strip('|') in names]
         if ids and len(ids) == len(names): learn_nogood(ids)
     def feasible(s, e):
         """False only if e is definitely unsatisfiable"""
@@ -73,9 +73,8 @@ class IncSolver(object):
         if ans == 'unsat':
             s.nunsat += 1
             if len(lits) > 1: s.learn_core(lits)
-        s.time += time.time() - t0
-        if False: pass
         elif ans != 'sat': s.nunknown += 1
+        s.time += time.time() - t0
         s.cache[e.id] = r
         return r
     def check(s, name, e, timeout_s=120, model_vars=None):
